@@ -6,10 +6,14 @@ from .facts import S, strip, nodes, walk
 def dominators(fn):
     if getattr(fn, '_dom', None) is not None:
         return fn._dom
-    ids = list(fn.blocks)
     en = fn.entry
+    live = reachable(fn, en)           # blocks not reachable from the entry (code after `continue; break;`) must not take part
+    ids = [i for i in fn.blocks if i in live]
     preds = fn.preds
     dom = {i: set(ids) for i in ids}
+    for i in fn.blocks:
+        if i not in live:
+            dom[i] = {i}
     dom[en] = {en}
     ch = True
     while ch:
@@ -17,7 +21,7 @@ def dominators(fn):
         for i in ids:
             if i == en:
                 continue
-            ps = [dom[p] for p in preds[i]]
+            ps = [dom[p] for p in preds[i] if p in live]
             new = (set.intersection(*ps) if ps else set()) | {i}
             if new != dom[i]:
                 dom[i] = new
@@ -29,9 +33,13 @@ def dominators(fn):
 def postdominators(fn):
     if getattr(fn, '_pdom', None) is not None:
         return fn._pdom
-    ids = list(fn.blocks)
     ex = fn.exit
+    canexit = backward_blocks(fn, ex)
+    ids = [i for i in fn.blocks if i in canexit]
     pdom = {i: set(ids) for i in ids}
+    for i in fn.blocks:
+        if i not in canexit:
+            pdom[i] = {i}
     pdom[ex] = {ex}
     ch = True
     while ch:
@@ -39,7 +47,7 @@ def postdominators(fn):
         for i in ids:
             if i == ex:
                 continue
-            ss = [pdom[s] for s in fn.blocks[i]['succs'] if s is not None]
+            ss = [pdom[s] for s in fn.blocks[i]['succs'] if s is not None and s in canexit]
             new = (set.intersection(*ss) if ss else set()) | {i}
             if new != pdom[i]:
                 pdom[i] = new
@@ -202,7 +210,10 @@ def loops(fn):
     """natural loops: list of (header block, set of body blocks) from back edges (target dominates source)"""
     dom = dominators(fn)
     out = {}
+    live = reachable(fn, fn.entry)
     for b, blk in fn.blocks.items():
+        if b not in live:
+            continue
         for s in blk['succs']:
             if s is not None and s in dom[b]:
                 body = {s}
@@ -212,7 +223,7 @@ def loops(fn):
                     if c in body:
                         continue
                     body.add(c)
-                    w += fn.preds.get(c, [])
+                    w += [p for p in fn.preds.get(c, []) if p in live]
                 out.setdefault(s, set()).update(body)
     return list(out.items())
 
@@ -291,3 +302,47 @@ def reaching_defs(fn, key_of):
                 nodes_by_id[id(d)] = d
         return {('ENTRY' if c == 'ENTRY' else c) for c in cur}, nodes_by_id
     return rd
+
+
+def must_hold(fn, gen_edge, kills):
+    """Forward must-analysis of one boolean fact. gen_edge(block, succ index) -> True when taking that edge
+    establishes the fact; kills(stmt) -> True when the statement invalidates it (after the statement).
+    Returns before(b, i) -> bool: does the fact hold on every path just before statement (b, i)?"""
+    live = reachable(fn, fn.entry)
+    IN = {b: True for b in live}
+    IN[fn.entry] = False
+
+    def out_of(b):
+        s = IN[b]
+        for st in fn.blocks[b]['stmts']:
+            if kills(st):
+                s = False
+        return s
+    ch = True
+    while ch:
+        ch = False
+        for b in live:
+            if b == fn.entry:
+                continue
+            v = True
+            for p in fn.preds.get(b, []):
+                if p not in live:
+                    continue
+                for j, s_ in enumerate(fn.blocks[p]['succs']):
+                    if s_ == b:
+                        v = v and (True if gen_edge(p, j) else out_of(p))
+            if v != IN[b]:
+                IN[b] = v
+                ch = True
+
+    def before(b, i):
+        if b not in live:
+            return False
+        s = IN[b]
+        for k, st in enumerate(fn.blocks[b]['stmts']):
+            if k >= i:
+                break
+            if kills(st):
+                s = False
+        return s
+    return before
